@@ -263,3 +263,89 @@ func c09InflightReconnect(ctx *Ctx, i int, drv int) {
 	ctx.Emit(Case{I: i, Kind: "inflight-reconnect-" + driverNames[drv], Desc: map[string]interface{}{"call_stuck_on_old_connection": got,
 		"in_flight_request_error": fmt.Sprint(errReq), "remotes_after": n}, Monitor: mon})
 }
+
+// c09CloseWhileOwnRequestRuns: host B's connection ends while a request B itself sent over it is
+// still being handled by the pool (its peer request waits for a slow host A). The end of a
+// connection is reported to the registry when the serving loop returns (server.go): that must
+// not wait for B's own handler -- B is uninstructable from the moment its connection is gone.
+func c09CloseWhileOwnRequestRuns(ctx *Ctx, i int, drv int) {
+	w := newWorld(worldCfg{Drv: drv, Price: "1000", IntervalNs: 60e9, Settle: true})
+	defer w.Close()
+	w.aliasAll()
+	w.stallFor = 4 * time.Second
+	var mon []string
+	// host A: answers the whitelist instruction only after a long while
+	a := w.newConn("h1", "10.0.0.5:1")
+	if err := w.connectOn(a, "h1"); err != nil {
+		fatal("connect h1: %v", err)
+	}
+	a.agent.mu.Lock()
+	a.agent.mode = "stall"
+	a.agent.mu.Unlock()
+	// host B: served the way server.go serves a connection: Serve, then tell the registry
+	c1, c2 := net.Pipe()
+	agB := &FakeAgent{w: w, name: "h2", mode: "ack", conn: 0}
+	srvB := &jsonrpc2.Server{}
+	srvB.Register("vipnode_", agB)
+	poolSideB := &jsonrpc2.Remote{Codec: addrCodec{jsonrpc2.IOCodec(c1), "10.0.0.6:1"}, Client: &jsonrpc2.Client{}, Server: w.server}
+	cliSideB := &jsonrpc2.Remote{Codec: jsonrpc2.IOCodec(c2), Client: &jsonrpc2.Client{}, Server: srvB}
+	served := make(chan struct{})
+	go func() {
+		poolSideB.Serve()
+		w.pool.CloseRemote(poolSideB)
+		close(served)
+	}()
+	go cliSideB.Serve()
+	b := &hostConn{agent: agB, poolSide: poolSideB, cliSide: cliSideB, c1: c1, c2: c2}
+	w.mu.Lock()
+	w.conns["h2"] = append(w.conns["h2"], b)
+	w.mu.Unlock()
+	if err := w.connectOn(b, "h2"); err != nil {
+		fatal("connect h2: %v", err)
+	}
+	before := w.pool.NumRemotes()
+	w.takeCalls()
+	// B asks for a peer: the pool instructs A and waits for its answer
+	go func() {
+		req := pool.PeerRequest{Num: 1, Kind: "geth"}
+		nonce := w.nextNonce()
+		sig := w.sign(keyFor("h2"), "vipnode_peer", nodeIDOf("h2"), nonce, req)
+		var resp pool.PeerResponse
+		cctx, cancel := context.WithTimeout(context.Background(), 8*time.Second)
+		defer cancel()
+		cliSideB.Call(cctx, &resp, "vipnode_peer", sig, nodeIDOf("h2"), nonce, req)
+	}()
+	instructed := false
+	for k := 0; k < 200 && !instructed; k++ {
+		time.Sleep(10 * time.Millisecond)
+		w.mu.Lock()
+		for _, c := range w.calls {
+			if c.Method == "whitelist" {
+				instructed = true
+			}
+		}
+		w.mu.Unlock()
+	}
+	took := time.Duration(0)
+	after := before
+	if instructed {
+		t0 := time.Now()
+		c1.Close()
+		c2.Close()
+		for time.Since(t0) < 2*time.Second {
+			if after = w.pool.NumRemotes(); after < before {
+				break
+			}
+			time.Sleep(5 * time.Millisecond)
+		}
+		took = time.Since(t0)
+		if after >= before {
+			mon = append(mon, fmt.Sprintf("c09-close-not-reported-while-request-in-flight: host h2's connection was closed while its own peer request was still being handled (waiting for host h1): %s later the registry still holds %d entries (%d before the close): h2 stays instructable over a dead connection until its handler ends (%s driver)", took.Round(time.Millisecond), after, before, driverNames[drv]))
+		}
+	}
+	select {
+	case <-served:
+	case <-time.After(7 * time.Second):
+	}
+	ctx.Emit(Case{I: i, Kind: "close-while-own-request-runs-" + driverNames[drv], Desc: map[string]interface{}{"instructed_slow_host": instructed, "registry_before": before, "registry_after": after, "reported_after_ms": took.Milliseconds()}, Monitor: mon})
+}
